@@ -272,6 +272,16 @@ def cases(tier):
             for c in out[n0:]:
                 c["crowded"] = True
             out[n0:] = [c for c in out[n0:] if not c.get("quiet")]
+    # containers that are NOT small: a dozen members (creation order n0..n11 differs from the lexicographic order
+    # n0, n1, n10, n11, n2 ...), deletions in the two-digit range, re-creation, reopen
+    N12 = ["n%d" % i for i in range(12)]
+    big = [["create", i] for i in range(12)] + [["delete", 9, "idx"], ["delete", 9, "name"], ["reopen"], ["create", 9],
+                                                 ["delete", 1, "id"], ["delete", 9, "negidx"], ["create", 10]]
+    for kind in KINDS:
+        out.append({"kind": kind, "names": N12, "ops": big, "hp": None})
+        if KINDS[kind]["link"] or kind in AB_KINDS:
+            out.append({"kind": kind, "names": N12, "ops": big, "hp": "AAA"})
+    out.append({"kind": "dims11", "names": [], "ops": [], "hp": None})
     for kind in KINDS:
         ab = KINDS[kind]["link"] or kind in AB_KINDS
         if tier == "quick":
@@ -463,10 +473,57 @@ def crowd(parent, kind, names):
             mk(nm)
 
 
+def run_dims11(r):
+    """an array of rank 11: the descriptors are numbered 1..11 (two-digit numbers sort before '2' as text)"""
+    env.install_seams()
+    env.reset_execution()
+    path = env.fresh_path("c03d_")
+    f = nix.File.open(path, nix.FileMode.Overwrite)
+    try:
+        b = f.create_block("B", "t")
+        da = b.create_data_array("d", "t", data=np.zeros((1,) * 11))
+        kinds = []
+        for i in range(11):
+            k = i % 3
+            if k == 0:
+                da.append_set_dimension(["l%d" % i])
+                kinds.append("SetDimension")
+            elif k == 1:
+                da.append_sampled_dimension(float(i + 1))
+                kinds.append("SampledDimension")
+            else:
+                da.append_range_dimension([float(i)])
+                kinds.append("RangeDimension")
+        for stage in ("in-session", "after-reopen"):
+            dims = list(da.dimensions)
+            got = [(type(d).__name__, d.index) for d in dims]
+            exp = [(k, i + 1) for i, k in enumerate(kinds)]
+            byidx = [(type(da.dimensions[i]).__name__, da.dimensions[i].index) for i in range(11)]
+            r.transitions += 3
+            if len(da.dimensions) != 11 or got != exp or byidx != exp:
+                r.viol("C03|data_array.dimensions|rank-11|%s|order-or-index" % stage,
+                       "dimension descriptors of a rank-11 array: iteration %r, by position %r, expected %r" % (got, byidx, exp), {})
+                return
+            if dims[10].ticks != (10.0,) if kinds[10] == "RangeDimension" else False:
+                r.viol("C03|data_array.dimensions|rank-11|%s|content" % stage, "11th descriptor has the wrong content", {})
+                return
+            f.close()
+            f = nix.File.open(path, nix.FileMode.ReadWrite)
+            da = f.blocks["B"].data_arrays["d"]
+        r.traces = 1
+        r.nontrivial = 1
+    finally:
+        env.safe_close(f)
+        env.rm(path)
+
+
 def run_case(case):
     r = R()
     r.evals = 1
     kind = case["kind"]
+    if kind == "dims11":
+        run_dims11(r)
+        return r
     K = KINDS[kind]
     names = case["names"]
     hist = case["ops"]
